@@ -1,2 +1,10 @@
 from contracts.uijson import CONTRACTS as _U
-CONTRACTS = list(_U)
+from contracts.validators import CONTRACTS as _V
+from contracts.enforcers import CONTRACTS as _E
+CONTRACTS = list(_U) + list(_V) + list(_E)
+
+MANIFEST = {
+    "category": "proof",
+    "text": "requires_value and its helpers are proved equal to a decision table written from the ui.json documentation for arbitrary dictionaries (loops carry invariants); each scalar validator is proved to raise iff its constraint is violated; EnforcerPool.enforce and Parameter.value are proved stateless/atomic for any number of enforcers. Type/UUID validators and call-history statelessness are exhaustive small-scope native checks (labelled bounded).",
+    "note": "Switch members are typed as the format says (precondition); at most one groupOptional carrier per group (precondition); pydantic forms and InputValidation.validate_data are outside the deductive part; T-py dict enumeration axiom assumed.",
+}
